@@ -347,26 +347,37 @@ def _decorate_namespace_function(
 def _is_accessor_of_base_or_ancestor(
     base: type, key: str, func: Callable[..., Any], accessor_name: str
 ) -> bool:
-    """Check whether ``func`` is the very accessor of the property ``key`` of the ``base`` or of one of its ancestors."""
+    """
+    Check whether ``func`` is the very accessor of a property of the ``base`` or of one of its ancestors.
+
+    Usually, it is the accessor ``accessor_name`` of the property ``key``. However, a property of a base can also be
+    taken over under another name (``other_key = Base.some_property``), so we look at all the properties.
+    """
     checker = icontract._checkers.find_checker(func=func)
 
     for klass in base.__mro__:
+        # The property ``key`` is looked at first as this is by far the most common case.
         a_property = vars(klass).get(key, None)
-        if not isinstance(a_property, property):
-            continue
+        properties = [a_property] if isinstance(a_property, property) else []
+        properties.extend(
+            value
+            for value in vars(klass).values()
+            if isinstance(value, property) and value is not a_property
+        )
 
-        accessor = getattr(a_property, accessor_name)
-        if accessor is None:
-            continue
+        for a_property in properties:
+            for accessor in (a_property.fget, a_property.fset, a_property.fdel):
+                if accessor is None:
+                    continue
 
-        if accessor is func:
-            return True
+                if accessor is func:
+                    return True
 
-        if (
-            checker is not None
-            and icontract._checkers.find_checker(func=accessor) is checker
-        ):
-            return True
+                if (
+                    checker is not None
+                    and icontract._checkers.find_checker(func=accessor) is checker
+                ):
+                    return True
 
     return False
 
